@@ -39,7 +39,7 @@ def layout(d, n, item_shape=()):
     return kw
 
 
-def make_input(path, d, sibling):
+def make_input(path, d, sibling, extra="plain"):
     """materialise the descriptor with raw h5py (independent of dclab's
     writer)"""
     import h5py
@@ -50,6 +50,8 @@ def make_input(path, d, sibling):
                 if k != "fluorescence"}
         meta["experiment"]["event count"] = n
         meta["setup"]["software version"] = "ShapeIn 2.4.0"
+        if extra == "defective-aspect":
+            meta["setup"]["software version"] = "ShapeIn 2.0.6"
         meta["user"] = {"note": "keep me", "number": 7}
         for sec, kv in meta.items():
             for k, v in kv.items():
@@ -66,6 +68,15 @@ def make_input(path, d, sibling):
         ds_img.attrs["IMAGE_SUBCLASS"] = np.bytes_("IMAGE_GRAYSCALE")
         msk = (gen.mask(ids) * 255).astype(np.uint8)
         ev.create_dataset("mask", data=msk, **layout(d, n, gen.IMG_SHAPE))
+        if extra == "defective-time":
+            # float32 time next to frame + frame rate: dclab recomputes it
+            ev.create_dataset("time", data=np.linspace(
+                0, 1, n).astype(np.float32), **layout(d, n))
+        elif extra == "defective-aspect":
+            ev.create_dataset("aspect", data=np.full(n, 7.0), **layout(d, n))
+        elif extra == "unknown-feature":
+            ev.create_dataset("peter", data=np.arange(n, dtype=float),
+                              **layout(d, n))
         # log
         lg = h5.create_group("logs")
         lines = [] if d["len"] == "zero" else LOG_LINES
@@ -98,6 +109,17 @@ def make_input(path, d, sibling):
         be.create_dataset("userdef1", data=np.arange(3.0) + 0.5)
         ev.create_dataset("basinmap0", data=np.array(
             [i % 3 for i in range(n)], dtype=np.uint64))
+        if extra == "mapped-basin":
+            sib2 = sibling.with_name("sibling2.rtdc")
+            make_sibling(sib2, 2 * n, feat="bright_sd")
+            mdef = {"description": "mapped sibling", "format": "hdf5",
+                    "name": "sib2", "type": "file", "features": ["bright_sd"],
+                    "mapping": "basinmap1", "paths": [str(sib2), sib2.name]}
+            bg.create_dataset("cccc3333", data=np.array(
+                [x.encode() for x in json.dumps(mdef, indent=2).split("\n")],
+                dtype="S200"))
+            ev.create_dataset("basinmap1", data=np.array(
+                [2 * i + 1 for i in range(n)], dtype=np.uint64))
         idef = {"description": "internal", "format": "h5dataset",
                 "name": "int", "type": "internal", "features": ["userdef1"],
                 "mapping": "basinmap0", "paths": ["basin_events"]}
@@ -107,7 +129,7 @@ def make_input(path, d, sibling):
     return n
 
 
-def make_sibling(path, n):
+def make_sibling(path, n, feat="bright_avg"):
     import h5py
     with h5py.File(path, "w") as h5:
         meta = {k: dict(v) for k, v in gen.META.items()
@@ -117,7 +139,7 @@ def make_sibling(path, n):
             for k, v in kv.items():
                 h5.attrs["%s:%s" % (sec, k)] = v
         h5.create_group("events").create_dataset(
-            "bright_avg", data=gen.scalar("bright_avg", range(1, n + 1)))
+            feat, data=gen.scalar(feat, range(1, n + 1)))
 
 
 def sha(p):
@@ -129,13 +151,15 @@ def lines_of(dset):
             for x in dset[:]]
 
 
-def compare(pin, pout, task, stripped, out, first):
+def compare(pin, pout, task, stripped, out, first, notcarried=()):
     """raw h5py comparison of input and output"""
     import h5py
     with h5py.File(pin, "r") as a, h5py.File(pout, "r") as b:
         if task.startswith("condense"):
             return
         for name in a["events"]:
+            if name in notcarried:
+                continue
             if name not in b["events"]:
                 if name.startswith("basinmap") and "basins" in stripped:
                     continue
@@ -247,12 +271,13 @@ def _case(job):
     d.mkdir()
     out = []
     descr = case["descr"]
-    tag = "%s/%s/chunk %s/len %s/%s strings" % (
+    extra = case.get("extra", "plain")
+    tag = "%s/%s/chunk %s/len %s/%s strings%s" % (
         descr["storage"], descr["filter"], descr["chunk"], descr["len"],
-        descr["str"])
+        descr["str"], "" if extra == "plain" else "/" + extra)
     try:
         pin = d / "in.rtdc"
-        n = make_input(pin, descr, d / "sibling.rtdc")
+        n = make_input(pin, descr, d / "sibling.rtdc", extra)
         make_sibling(d / "sibling.rtdc", n)
         cur, stripped = pin, set()
         for i, task in enumerate(case["pipe"]):
@@ -271,7 +296,8 @@ def _case(job):
             before = len(out)
             if cur == pin or not any(t.startswith("condense")
                                      for t in case["pipe"][:i]):
-                compare(pin, nxt, task, stripped | now, out, i == 0)
+                compare(pin, nxt, task, stripped | now, out, i == 0,
+                        case.get("notcarried", ()))
             try:
                 compare_dclab(pin, nxt, task, stripped | now, out)
             except BaseException as exc:
@@ -285,7 +311,7 @@ def _case(job):
             cur = nxt
     finally:
         shutil.rmtree(d, ignore_errors=True)
-    return {"descr": descr, "pipe": case["pipe"]}, out
+    return {"descr": descr, "pipe": case["pipe"], "extra": extra}, out
 
 
 _case.k = 0
@@ -353,7 +379,9 @@ def main(tier, seed, replay=None):
                "smaller/equal/larger than the data x one/many/3001 events (3001: "
                "HDF5 splits an unchunked destination into several chunks with "
                "a remainder)/empty "
-               "log x fixed/variable-length log strings) x every pipeline of "
+               "log x fixed/variable-length log strings) x extras (defective "
+               "time / aspect markers, unknown feature, mapped file basin; "
+               "on two layouts) x every pipeline of "
                "1..2 tasks (compress, repack, repack stripping logs or "
                "basins, condense with/without ancillary features); the input "
                "is materialised with raw h5py (features, image with "
